@@ -461,6 +461,23 @@ func report(eng *Engine, spec *PropSpec, tier string, seed int, start time.Time,
 		samples = append(samples, map[string]interface{}{"note": "no completed path produced a sample"})
 	}
 
+	if verbose {
+		type kv struct {
+			k string
+			v int
+		}
+		var fs []kv
+		for k, v := range res.ForkSites {
+			fs = append(fs, kv{k, v})
+		}
+		sort.Slice(fs, func(i, j int) bool { return fs[i].v > fs[j].v })
+		for i, f := range fs {
+			if i >= 25 {
+				break
+			}
+			fmt.Fprintf(os.Stderr, "fork-site %7d  %s\n", f.v, f.k)
+		}
+	}
 	sort.Strings(inconclusive)
 	for _, inc := range inconclusive {
 		lines = append(lines, fmt.Sprintf("INCONCLUSIVE property=%s %s", spec.ID, inc))
